@@ -487,11 +487,14 @@ mod treeops {
                 "insert_after" | "insert_before" => { let (r, c) = (x, y);
                     let p = match self.parent[r] { Some(p) => p, None => return Ok(false) };
                     if !self.normal(r) || r == c || !self.may_adopt(p, c) { return Ok(false); }
-                    // known finding: the reference node is consolidated away
-                    if cons && self.next_same(c) == Some(r) && self.prev_same(c).map(|a| self.is_text(a)).unwrap_or(false) && self.is_text(r) { return Err(()); }
-                    self.leave(c, cons);
                     let after = op == "insert_after";
-                    let in_place = if after { self.next_same(r) == Some(c) } else { self.prev_same(r) == Some(c) };
+                    // a call asking for the position the node already occupies changes nothing (C05)
+                    if (after && self.next_same(r) == Some(c)) || (!after && self.prev_same(r) == Some(c)) { return Ok(true); }
+                    // the reference node may itself be the text node that is merged into its predecessor when c leaves:
+                    // the merged node then stands in for it
+                    let r = if cons && self.next_same(c) == Some(r) && self.prev_same(c).map(|a| self.is_text(a)).unwrap_or(false) && self.is_text(r) { self.prev_same(c).unwrap() } else { r };
+                    self.leave(c, cons);
+                    let in_place = false;
                     if cons && self.is_text(c) && !in_place {
                         let (a, b) = if after { (Some(r), self.next_same(r)) } else { (self.prev_same(r), Some(r)) };
                         if let Some(a) = a { if self.is_text(a) { self.merge(a, c); return Ok(true); } }
